@@ -229,20 +229,15 @@ fn get_nested__ragged_stepwise_missing_is_none() {
     std::mem::forget(outer);
 }
 
-/// `[i][j]` by value (`extract_nested`) on the same ragged value, owned
-/// representation (function results) and borrowed (`as_ref()` of a field value).
-fn extract_nested_ragged<const BORROWED: bool>() {
+/// `[I][j]` by value (`extract_nested`) on the borrowed view (`as_ref()` of a field
+/// value) of the same ragged value; outer index I constant per obligation, j any u32.
+fn extract_nested_ragged<const I: u32>() {
     let (a, b, c): (i64, i64, i64) = kani::any();
     let outer = ragged(a, b, c);
-    let i: u32 = kani::any();
     let j: u32 = kani::any();
-    let want = ragged_want(a, b, c, i, j);
-    let path = [FieldIndex::ArrayIndex(i), FieldIndex::ArrayIndex(j)];
-    let got = if BORROWED {
-        outer.as_ref().extract_nested(&path)
-    } else {
-        ragged(a, b, c).extract_nested(&path)
-    };
+    let want = ragged_want(a, b, c, I, j);
+    let path = [FieldIndex::ArrayIndex(I), FieldIndex::ArrayIndex(j)];
+    let got = outer.as_ref().extract_nested(&path);
     match &got {
         Some(LhsValue::Int(v)) => {
             assert!(want == Some(*v), "[i][j] is element j of element i; missing step: no value");
@@ -255,27 +250,26 @@ fn extract_nested_ragged<const BORROWED: bool>() {
         }
     }
     std::mem::forget(got);
-    kani::cover!(i == 1 && j == 1, "ragged: second row is shorter");
-    kani::cover!(i == 2, "outer index == len");
-    kani::cover!(i == 1 && j == 0);
+    kani::cover!(j == 1, "second element / ragged: second row is shorter");
+    kani::cover!(j == 0);
+    kani::cover!(j == u32::MAX);
     std::mem::forget(outer);
 }
 
-proof!(extract_nested__ragged_borrowed, 5, extract_nested_ragged::<true>());
-proof!(extract_nested__ragged_owned, 3, extract_nested_ragged::<false>());
+proof!(extract_nested__ragged_borrowed_row0, 3, extract_nested_ragged::<0>());
+proof!(extract_nested__ragged_borrowed_row1, 3, extract_nested_ragged::<1>());
+proof!(extract_nested__ragged_borrowed_row_out_of_range, 3, extract_nested_ragged::<2>());
 
-/// A key on an EMPTY map and on an absent row: no value (maps with entries need
-/// BTreeMap insertion, which is out of CBMC's reach - see unverified).
+/// A key on an EMPTY map: no value (maps with entries need BTreeMap insertion,
+/// which is out of CBMC's reach - see unverified).
 #[kani::proof]
-#[kani::unwind(4)]
+#[kani::unwind(2)]
 fn map_key_on_empty_map__no_value() {
     let m = LhsValue::Map(Map::new(Type::Int));
     let key = FieldIndex::MapKey(String::from("k"));
-    assert!(matches!(m.get(&key), Ok(None)), "an absent key yields no value");
-    let path = [FieldIndex::MapKey(String::from("k"))];
-    assert!(m.get_nested(&path).is_none());
-    let r = m.as_ref().extract(&key);
-    assert!(matches!(r, Ok(None)));
+    let r = m.get(&key);
+    assert!(matches!(r, Ok(None)), "an absent key yields no value");
     std::mem::forget(r);
-    std::mem::forget((m, key, path));
+    kani::cover!(true);
+    std::mem::forget((m, key));
 }
